@@ -110,6 +110,9 @@ pub enum Op {
     /// map / zip whose *output* element type is `()` (zero-sized, no destructor) while the inputs are of the case's kind
     MapToUnit(u8),
     ZipToUnit(u8),
+    /// map (four receiver forms) into an output element type of another size / alignment than the input's:
+    /// selector 0 u64, 1 (u32, u32), 2 [u32; 4], 3 u8, 4 u16, 5 String, 6 (T-value, u64) pair with a 24-byte String inside
+    MapResize(u8, u8),
 }
 
 #[derive(Clone, Debug, Serialize, Deserialize, PartialEq, Eq, Hash)]
@@ -260,6 +263,7 @@ fn exec_typed<T: Elem + Peek + Clone + Default + 'static, N: ArrayLength>(case: 
                 return Err(format!("{what}: result has {got} elements"));
             }
         }
+        Op::MapResize(..) => unreachable!(),
         Op::ZipToUnit(f) => {
             let mut a = mk_a();
             let mut b = mk_b();
@@ -442,6 +446,69 @@ fn exec_typed<T: Elem + Peek + Clone + Default + 'static, N: ArrayLength>(case: 
     Ok(())
 }
 
+/// map into an output element type of another size / alignment (instantiated for fewer lengths than the other operations)
+fn exec_resize<T: Elem + Peek + Clone + Default + 'static, N: ArrayLength>(case: &Case, acc: &mut Acc) -> Result<(), String> {
+    registry::reset();
+    let n = N::USIZE;
+    let salt = case.salt;
+    let av: Vec<u32> = (0..n).map(|i| T::norm(salt.wrapping_add(i as u32 * 7 + 1))).collect();
+    let mk_a = || -> GenericArray<T, N> { GenericArray::from_iter(av.iter().map(|v| T::mk(*v))) };
+    let mut log: Vec<(usize, u32, u32)> = vec![];
+    let what = format!("{:?} on N={n} kind={}", case.op, T::KIND);
+    let Op::MapResize(f, sel) = case.op else { unreachable!() };
+            // the closure numbers its calls; the output carries (call number, input value) so that order and pairing are visible in the result too
+            macro_rules! run {
+                ($mk:expr, $rd:expr) => {{
+                    let mut a = mk_a();
+                    let mut calls = 0u32;
+                    macro_rules! body {
+                        () => {
+                            |x| {
+                                let v = pk(&x);
+                                log.push((calls as usize, v, 0));
+                                calls += 1;
+                                drop(x);
+                                $mk(calls, v)
+                            }
+                        };
+                    }
+                    let got: Vec<(u32, u32)> = match f {
+                        0 => a.map(body!()).iter().map($rd).collect(),
+                        1 => (&a).map(body!()).iter().map($rd).collect(),
+                        2 => (&mut a).map(body!()).iter().map($rd).collect(),
+                        _ => Box::new(a).map(body!()).iter().map($rd).collect(),
+                    };
+                    got
+                }};
+            }
+            let got: Vec<(u32, u32)> = match sel % 7 {
+                0 => run!(|c: u32, v: u32| ((c as u64) << 32) | v as u64, |o: &u64| ((*o >> 32) as u32, *o as u32)),
+                1 => run!(|c: u32, v: u32| (c, v), |o: &(u32, u32)| *o),
+                2 => run!(|c: u32, v: u32| [c, v, c ^ v, 7], |o: &[u32; 4]| (o[0], o[1])),
+                3 => run!(|c: u32, _v: u32| c as u8, |o: &u8| (*o as u32, 0)),
+                4 => run!(|c: u32, v: u32| (c as u16) ^ ((v as u16) << 8), |o: &u16| ((*o & 0xff) as u32, 0)),
+                5 => run!(|c: u32, v: u32| format!("{c}:{v}"), |o: &String| { let (a, b) = o.split_once(':').unwrap(); (a.parse().unwrap(), b.parse().unwrap()) }),
+                _ => run!(|c: u32, v: u32| (format!("{v}"), c as u64), |o: &(String, u64)| (o.1 as u32, o.0.parse().unwrap())),
+            };
+            let want_log: Vec<(usize, u32, u32)> = (0..n).map(|i| (i, av[i], 0)).collect();
+            check_log(&what, &log, &want_log)?;
+            let narrow = matches!(sel % 7, 3 | 4);
+            for (i, (c, v)) in got.iter().enumerate() {
+                let wc = if sel % 7 == 3 { (i as u32 + 1) & 0xff } else if sel % 7 == 4 { ((i as u32 + 1) ^ (av[i] << 8)) & 0xff } else { i as u32 + 1 };
+                if *c != wc || (!narrow && *v != av[i]) {
+                    return Err(format!("{what}: result {i} is (call #{c}, value {v}), expected (call #{wc}, value {})", av[i]));
+                }
+            }
+            if got.len() != n {
+                return Err(format!("{what}: result has {} elements", got.len()));
+            }
+    engine::end_case(false)?;
+    acc.count(n >= 2, case);
+    acc.class(&format!("kind_{}", T::KIND));
+    acc.class("map_into_resized_output");
+    Ok(())
+}
+
 fn ident<T: 'static>(x: &T) -> Option<u32> {
     (x as &dyn std::any::Any).downcast_ref::<Tracked>().map(|t| t.id_unchecked())
 }
@@ -461,7 +528,20 @@ macro_rules! lens_wide {
 }
 const WIDE_EXTRA: &[usize] = &[9, 15, 31, 63, 65, 100, 127, 129, 200, 255, 257, 300, 511, 513, 1000, 1023, 2048, 4096];
 
+macro_rules! lens_resize {
+    ($n:expr, $N:ident, $body:expr) => {
+        len_match!($n, $N, $body, [0: U0, 1: U1, 2: U2, 3: U3, 5: U5, 8: U8, 17: U17, 64: U64, 1024: U1024])
+    };
+}
+const RESIZE_LENS: &[usize] = &[0, 1, 2, 3, 5, 8, 17, 64, 1024];
+
 pub fn exec(case: &Case, acc: &mut Acc) -> Result<(), String> {
+    if matches!(case.op, Op::MapResize(..)) {
+        return match case.kind {
+            Kind::U32 => lens_resize!(case.n, N, exec_resize::<u32, N>(case, acc)),
+            _ => lens_resize!(case.n, N, exec_resize::<String, N>(case, acc)),
+        };
+    }
     match case.kind {
         Kind::U32 => lens_wide!(case.n, N, exec_typed::<u32, N>(case, acc)),
         Kind::Str => lens8!(case.n, N, exec_typed::<String, N>(case, acc)),
@@ -496,6 +576,13 @@ fn grid(draws: u32, seed: u64) -> Vec<Case> {
                 }
                 for f in 0..10 {
                     ops.push(Op::ZipToUnit(f));
+                }
+                if matches!(kind, Kind::U32 | Kind::Str) && RESIZE_LENS.contains(&n) {
+                    for f in 0..4 {
+                        for sel in 0..7 {
+                            ops.push(Op::MapResize(f, sel));
+                        }
+                    }
                 }
             }
             for f in 0..2 {
@@ -542,7 +629,7 @@ pub fn main() {
         Report {
             prop: PROP,
             level: "exploration",
-            rule: "case = (operation and receiver/argument form, N in {0..8,12,16,17,33,64,256,1024} (u32 elements additionally 9,15,31,63,65,100,127,129,200,255,257,300,511,513,1000,1023,2048,4096), element kind, seeded element values): generate x4 forms (owned, via &, via &mut, boxed), map x4, zip x10 (nine stack forms + boxed x boxed), fold x4, Clone (stack, boxed), clone_from into an existing array (stack, boxed), Default (stack, default_boxed); element kinds u32, String, drop-tracked, zero-sized tracked, a type without drop glue whose Clone/Default are observable, and a zero-sized type without drop glue whose Clone/Default are observable; map x4 and zip x10 whose output element type is () for every input kind. \
+            rule: "case = (operation and receiver/argument form, N in {0..8,12,16,17,33,64,256,1024} (u32 elements additionally 9,15,31,63,65,100,127,129,200,255,257,300,511,513,1000,1023,2048,4096), element kind, seeded element values): generate x4 forms (owned, via &, via &mut, boxed), map x4, zip x10 (nine stack forms + boxed x boxed), fold x4, Clone (stack, boxed), clone_from into an existing array (stack, boxed), Default (stack, default_boxed); element kinds u32, String, drop-tracked, zero-sized tracked, a type without drop glue whose Clone/Default are observable, and a zero-sized type without drop glue whose Clone/Default are observable; map x4 and zip x10 whose output element type is () for every input kind; map x4 into seven output types of other sizes / alignments (narrower, wider, same alignment or not, with and without drop glue) for u32 and String inputs. \
                    Oracle: the stateful, non-commutative closure's call log must be exactly calls 0..N-1 with arguments (i) / (a[i]) / (a[i], b[i]) / (acc, a[i]) in ascending order, and the result must equal the same computation on slices; Clone/Default order is observed through identities and call logs. \
                    non-trivial = N >= 2; distinct = distinct (form, N, kind, values)",
             exhaustive: false,
